@@ -458,6 +458,28 @@ class Interp:
             self._records = recs
         return self._records
 
+    def const_test(self, t, env):
+        """True / False when the test compares two strings that are constants on this path; else None"""
+        if isinstance(t, ast.Compare) and len(t.ops) == 1 and isinstance(t.ops[0], (ast.Eq, ast.NotEq, ast.In, ast.NotIn)):
+            l = self.cstr(t.left, env)
+            if l is None:
+                return None
+            r = t.comparators[0]
+            if isinstance(t.ops[0], (ast.Eq, ast.NotEq)):
+                rv = self.cstr(r, env)
+                if rv is None:
+                    return None
+                return (l == rv) == isinstance(t.ops[0], ast.Eq)
+            if isinstance(r, (ast.Tuple, ast.List, ast.Set)):
+                vals = [self.cstr(x, env) for x in r.elts]
+                if any(v is None for v in vals):
+                    return None
+                return (l in vals) == isinstance(t.ops[0], ast.In)
+        if isinstance(t, ast.UnaryOp) and isinstance(t.op, ast.Not):
+            c = self.const_test(t.operand, env)
+            return None if c is None else not c
+        return None
+
     def cstr(self, e, env):
         if isinstance(e, ast.Constant) and isinstance(e.value, str):
             return e.value
@@ -794,7 +816,27 @@ class Interp:
             return V("raw", deps=it.deps)
         return V("raw", deps=it.deps, deg=it.deg)
 
+    def _table_rows(self, e, env, cx):
+        """rows of the literal table a comprehension ranges over with its first generator (a tuple of tuples of
+        constants / functions), else None: the comprehension is then evaluated row by row, each row with its own values"""
+        g = e.generators[0]
+        if g.ifs or len(e.generators) != 1:
+            return None
+        it = self.ev(g.iter, env, cx)
+        if it.k == "list" and it.items and (not isinstance(g.target, ast.Name)
+                                            or all(x.k in ("list", "meth", "rec", "lambda") for x in it.items)):
+            return it
+        return None
+
     def ev_ListComp(self, e, env, cx):
+        rows = self._table_rows(e, env, cx)
+        if rows is not None:
+            outs = []
+            for row in rows.items:
+                env2 = dict(env)
+                self.bind(e.generators[0].target, add_deps(row, rows.deps), env2, cx)
+                outs.append(self.ev(e.elt, env2, cx))
+            return V("list", elem=join(outs), items=outs if len(outs) <= 8 else None)
         self._pushed = 0
         env2 = self._comp_env(e.generators, env, cx)
         pushed = self._pushed
@@ -807,6 +849,15 @@ class Interp:
     ev_GeneratorExp = ev_SetComp = ev_ListComp
 
     def ev_DictComp(self, e, env, cx):
+        rows = self._table_rows(e, env, cx)
+        if rows is not None:
+            ks, vs = [], []
+            for row in rows.items:
+                env2 = dict(env)
+                self.bind(e.generators[0].target, add_deps(row, rows.deps), env2, cx)
+                ks.append(self.ev(e.key, env2, cx))
+                vs.append(self.ev(e.value, env2, cx))
+            return V("dict", elem=join(vs), deps=F().union(*[k.deps for k in ks]))
         self._pushed = 0
         env2 = self._comp_env(e.generators, env, cx)
         pushed = self._pushed
@@ -1600,6 +1651,9 @@ class Interp:
                 self.run(s.orelse, env, cx, rets)
                 cx.taint.pop()
                 cx.ctl.pop()
+            elif isinstance(s, ast.If) and self.const_test(s.test, env) is not None:
+                # decided by constants (a row of a literal table compared with a literal): only that arm runs
+                self.run(s.body if self.const_test(s.test, env) else s.orelse, env, cx, rets)
             elif isinstance(s, ast.If):
                 t = self.ev(s.test, env, cx)
                 guard = self.exits(s.body) and isinstance(s.body[-1], ast.Raise) and not s.orelse
